@@ -31,14 +31,19 @@ RULE = (
     "by base-4 arithmetic on plain str slices. A case is non-trivial when the length is not divisible by 3, or the "
     "frame is on the minus strand, or the code is not the standard code (ID != 1); distinct = (entry point, code id, "
     "frame, length mod 3, stop policy). Symbol checks count as non-trivial for degenerate symbols; distinct = "
-    "(operation, implementation, moltype, symbol)."
+    "(operation, implementation, moltype, symbol). Histories: 3-10 entry-point calls (gapped / plain x RNA / DNA x old / "
+    "new x sequence / container / app) on ONE code inside one process, in RNA-first, DNA-first and shuffled order; the "
+    "shared genetic-code objects (stop list, every gc[codon], sense codons, synonyms, to_regex, get_stop_indices, "
+    "anticodons) are compared with a snapshot from worker start after every history step and after every case; "
+    "distinct = (previous step class, step class)."
 )
 LEVEL_TEXT = (
     "Every codon of every available genetic code is looked up through every lookup path of the old and new "
     "genetic-code objects and compared with the pinned NCBI table; every IUPAC symbol of every molecular type is "
     "complemented, resolved and re-encoded and compared with a hand-written IUPAC table. Frames, strands, stop "
     "policies and the sequence / collection / alignment / app entry points are compared with a string model on "
-    "seeded random sequences. Exhaustive for the tables, sampled for sequences."
+    "seeded random sequences, alone and in order-dependent histories on the same shared code objects, whose observable "
+    "tables must stay as they were when the worker started. Exhaustive for the tables, sampled for sequences."
 )
 LEVEL_NOTE = (
     "held = held on the executions listed in the evidence; trusted: Python str slicing, the pinned copy of the NCBI "
@@ -49,6 +54,8 @@ ASSUMPTIONS = [
     "the NCBI translation tables pinned in the monitor (transl_table ids 1-33 as shipped, cross-checked old vs new module when written) are the published data",
     "IUPAC nucleotide / amino-acid ambiguity codes as hand-written in the monitor; '?' and '-' are cogent3's missing / gap symbols",
     "Python str slicing and reversal are the reference semantics for frames and strands",
+    "genetic-code objects returned by get_code are process-wide singletons; cross-call state is judged against a snapshot "
+    "taken in each worker before its first case",
     "the flag pair include_stop=True, trim_stop=True is not compared strictly (either reading accepted); gapped codons are "
     "only held to each implementation's documented symbol ('?' old, '-' new) with incomplete_ok=True",
     "new GeneticCode.translate documents its argument as DNA: RNA-spelled plain strings are not given to it (RNA goes through "
